@@ -184,6 +184,10 @@ def run(tier):
             init = r.choice(VALUES)
             values = [r.choice(VALUES) for _ in range(r.choice([1, 2, 3]))]
             bjobs.append(dict(cls=cls, init_state_json=init, values=values, hops=r.choice([1, 2])))
+        if 'Thread' not in cls:
+            # the child is killed while busy (no report possible): the next incarnation starts from what was synchronised before
+            for modes in (['kill'], ['busy', 'kill'], ['kill', 'busy'], ['busy', 'kill', 'kill']) if thorough else (['kill'], ['busy', 'kill', 'busy']):
+                bjobs.append(dict(cls=cls, init_state_json=r.choice(VALUES), values=[r.choice(VALUES) for _ in range(2)], hops=len(modes), modes=modes))
 
     def bone(ij):
         i, sp = ij
@@ -192,7 +196,7 @@ def run(tier):
         return sp, res
 
     for sp, res in pmap(bone, list(enumerate(bjobs)), 8):
-        chk.case((sp['cls'], 'busy-restart', len(sp['values']), sp['hops'], rv(sp['init_state_json'])))
+        chk.case((sp['cls'], 'busy-restart', len(sp['values']), sp['hops'], rv(sp['init_state_json']), tuple(sp.get('modes') or ())))
         chk.count('busy_restart_cases')
         hops = [e for e in res['events'] if e.get('ev') == 'busy_hop']
         if not hops:
@@ -209,7 +213,9 @@ def run(tier):
                 if h['seen_by_next'] != h['expected']:
                     probs.append('next-incarnation-not-started-from-last-synchronised(%s)' % str(h['seen_by_next'])[:20])
             if probs:
-                chk.violation('%s:%s:busy-restart' % (probs[0].split('(')[0], kind_of(sp['cls'])), '%s restarted while busy (hop %d): %s; expected %s' % (sp['cls'], h['hop'], ', '.join(probs), h['expected']), {'spec': sp, 'hop': h})
+                how = 'killed-then-restart' if h.get('mode') == 'kill' else 'busy-restart'
+                chk.violation('%s:%s:%s' % (probs[0].split('(')[0], kind_of(sp['cls']), how), '%s restarted %s (hop %d): %s; expected %s' % (
+                    sp['cls'], 'after its child was killed' if h.get('mode') == 'kill' else 'while busy', h['hop'], ', '.join(probs), h['expected']), {'spec': sp, 'hop': h})
                 break
     cleanup(wd)
     chk.assumptions = ['thread kinds are exempt from the "parent sees the initial value while alive" half (shared memory, documented)',
@@ -257,7 +263,9 @@ def busy_restart_case(spec, log):
     try:
         w = cls(vtargets.ret_value, init_state=decode(spec['init_state_json']), **kw)
         values = spec['values']
+        synced = rv(spec['init_state_json'])        # last state the parent and the child agreed on
         for hop in range(spec['hops']):
+            mode = (spec.get('modes') or ['busy'] * 8)[hop]
             md = os.path.join(d, 'm%d' % hop)
             os.makedirs(md, exist_ok=True)
             vals = values if hop == 0 else [{'__val__': [hop, 'h']}, hop * 11]
@@ -266,19 +274,27 @@ def busy_restart_case(spec, log):
             while time.monotonic() - t0 < 10 and not os.path.exists(os.path.join(md, 'hanging')):
                 time.sleep(0.005)
             time.sleep(0.05)
-            expected = rv(vals[-1])
+            if mode == 'kill':
+                # the child dies without any chance to report: nothing newer than `synced` was ever synchronised
+                import signal
+                os.kill(w.pid, signal.SIGKILL)
+                time.sleep(0.2)
+                expected = synced
+            else:
+                expected = rv(vals[-1])
             a = {'timeout': 0.3}
             r = bounded('restart', lambda: w.restart(**a), 60)
             if r is HANG or isinstance(r, Raised):
-                log.ev('busy_hop', hop=hop, outcome=('hang' if r is HANG else 'raised:' + type(r.exc).__name__), expected=expected)
+                log.ev('busy_hop', hop=hop, mode=mode, outcome=('hang' if r is HANG else 'raised:' + type(r.exc).__name__), expected=expected)
                 break
+            synced = expected
             parent_state = repr(w.user_state)
             md2 = os.path.join(d, 'p%d' % hop)
             os.makedirs(md2, exist_ok=True)
             w.enqueue(md2, [], 'return')
             v = bounded('next_result', lambda: w.next_result(), 30)
             seen = v[1] if isinstance(v, list) and len(v) == 3 else repr(getattr(v, 'exc', v))
-            log.ev('busy_hop', hop=hop, outcome='returned', parent_state=parent_state, seen_by_next=seen, expected=expected)
+            log.ev('busy_hop', hop=hop, mode=mode, outcome='returned', parent_state=parent_state, seen_by_next=seen, expected=expected)
         return {'ok': True}
     finally:
         try:
